@@ -348,7 +348,8 @@ func (i *Interpreter) validateAndSetParameters(sub *ast.SubroutineDeclaration, a
 				err.Error(),
 			)
 		}
-		i.localVars[param.Name.Value] = converted
+		// arguments are passed by value: the callee must not share storage with the caller's variable
+		i.localVars[param.Name.Value] = converted.Copy()
 	}
 
 	return nil
